@@ -243,7 +243,7 @@ def run(ctx, spec):
             rng = ctx.rng("rand")
             for _ in range(spec["nrand"]):
                 Gn, Sn, lm = gen.random_input(rng, spec["rand_obj"], spec["rand_sp"], min_obj=2)
-                c = gen.random_cost(rng, plain=True)
+                c = gen.tame(gen.random_cost(rng, plain=True), len(lm))
                 case = {"kind": "plain", "G": Gn, "S": Sn, "leafmap": lm, "costs": c}
                 small = len(lm) <= 4 and len(T(Sn).nodes) <= 7
                 check_case(ctx, case, table_hook=hook, brute=small, do_genall=small)
